@@ -695,9 +695,11 @@ func main() {
 	}
 
 	var wg sync.WaitGroup
-	// thorough: the one branch virtual time cannot reach — the failure is detected *after* the
-	// close deadline (closeDelay = 0 and the base deadline fires for real after 30 s)
-	if r.Thorough() {
+	// real time (both tiers, ~32 s, concurrent with everything else): what virtual deadlines cannot
+	// reach — a failure detected *after* the close deadline (closeDelay = 0: the base deadline fires
+	// for real after 30 s and closeAfterDelay closes at once), and bytes trickling in with pauses
+	// that add up to more than 30 s + closeDelay (the handshake deadline is absolute)
+	{
 		sw := &worker{srv: &srvh.Srv{D: r.Driver("o4srv")}, ref: &o4h.Ref{D: r.Driver("o4ref")}}
 		srng := vlib.NewRng(r.Seed ^ 0x51ee9)
 		var seed0, seed1 uint64
